@@ -40,8 +40,12 @@ def demo(tree, demo_path):
 def main():
     prop, which = sys.argv[1], sys.argv[2]
     in_repo = "--in-repo" in sys.argv
-    src = "/tmp/seed_%s/OUT/%s" % (prop, which)
-    wt = "/tmp/seed_%s" % prop
+    root = "seed"
+    for a in sys.argv:
+        if a.startswith("--root="):
+            root = a.split("=", 1)[1]
+    src = "/tmp/%s_%s/OUT/%s" % (root, prop, which)
+    wt = "/tmp/%s_%s" % (root, prop)
     dst = os.path.join(V, "seeded", "%s-%s" % (prop, which))
     os.makedirs(dst, exist_ok=True)
     for f in ("patch.diff", "demo.py", "meta.json"):
